@@ -28,3 +28,14 @@ MANIFEST_TEXT = {
         design_ref="DESIGN.md section 5 C01",
     ),
 }
+
+
+# per-property modules scripts/props_Cxx.py contribute CFG (check configuration) and TEXT (manifest wording)
+import glob as _glob, importlib as _importlib, os as _os
+for _f in sorted(_glob.glob(_os.path.join(_os.path.dirname(_os.path.abspath(__file__)), "props_C*.py"))):
+    _name = _os.path.basename(_f)[:-3]
+    _m = _importlib.import_module(_name)
+    _pid = _name.split("_", 1)[1]
+    PROPS[_pid] = _m.CFG
+    if hasattr(_m, "TEXT"):
+        MANIFEST_TEXT[_pid] = _m.TEXT
